@@ -50,7 +50,7 @@ import datashard.transaction as txm
 from vf.rigs.fakeos import FakeOS
 from vf.rigs.fakes3 import FakeS3, Instant
 from vf.rigs.world import World, actor
-from vf.sched import SchedRLock
+from vf.sched import SchedEvent, SchedLock, SchedRLock
 from vf.symx import FloatShadow, IntShadow, SInt, SSecs, smax
 
 _MISSING = object()
@@ -347,6 +347,8 @@ class _ThreadingShim(types.ModuleType):
     def __init__(self):
         super().__init__("threading")
         self.RLock = SchedRLock
+        self.Lock = SchedLock
+        self.Event = SchedEvent
 
     def __getattr__(self, k):
         return getattr(threading, k)
@@ -363,6 +365,12 @@ class GrantAllLock:
 
     def is_held(self):
         return True
+
+
+def _datashard_modules():
+    import datashard as _ds
+    pre = _ds.__name__ + "."
+    return [m for n, m in list(sys.modules.items()) if m is not None and (n == _ds.__name__ or n.startswith(pre)) and isinstance(m, types.ModuleType)]
 
 
 class Env:
@@ -411,6 +419,10 @@ class Env:
             self._set(m, "time", ts)
         self._set(s3c, "time", ts_backoff)
         self._set(lp, "random", rs)
+        import time as _rtime
+        for m in _datashard_modules():
+            if m.__dict__.get("time") is _rtime:
+                self._set(m, "time", ts_backoff)   # a module that (newly) imports time: virtual clock, sleeps end by time
         self._set(sys.modules, "time", ts_backoff)  # Transaction.commit imports time inside the function (retry back-off)
         self._set(sys.modules, "random", rs)
         self._set(sys.modules, "datetime", DatetimeModShim(w))
@@ -426,6 +438,9 @@ class Env:
         # thread locks + executor
         self._set(mm, "threading", thr)
         self._set(txm, "threading", thr)
+        for m in _datashard_modules():
+            if m.__dict__.get("threading") is threading and m is not lp:
+                self._set(m, "threading", thr)   # a module that (newly) imports threading: cooperative Lock / RLock / Event
         import concurrent.futures as cf
         self._set(cf, "ThreadPoolExecutor", SyncExecutor)
         # data plane
@@ -477,6 +492,25 @@ class Env:
             self._set(fl, "FCNTL_AVAILABLE", True)
             self._set(du, "shutil", sh)
             self._set(sb, "create_storage_backend", lambda p: sb.LocalStorageBackend(p))
+            # ... and whatever ELSE in the package holds a reference to these modules at this moment (a change under test may have added an
+            # `import os` / `import shutil` to a module that did not have one): nothing in datashard may reach the real file system
+            import os as _ros
+            import shutil as _rsh
+            import tempfile as _rtf
+            import fcntl as _rfc
+            for m in _datashard_modules():
+                d = m.__dict__
+                if d.get("os") is _ros:
+                    self._set(m, "os", fos)
+                if d.get("shutil") is _rsh:
+                    self._set(m, "shutil", types.SimpleNamespace(disk_usage=fos.disk_usage, rmtree=fos.rmtree, move=fos.move, copyfile=fos.copyfile,
+                                                                  copy=fos.copyfile, copy2=fos.copyfile))
+                if d.get("tempfile") is _rtf:
+                    self._set(m, "tempfile", tf)
+                if d.get("fcntl") is _rfc:
+                    self._set(m, "fcntl", fc)
+                if "open" not in d:
+                    self._set(m, "open", fos.builtin_open)
         elif self.rig == "S":
             self.s3 = FakeS3(w)
             # a lock poller can only observe APPLIED changes: failed conditional PUTs do not wake sleepers
